@@ -105,10 +105,10 @@ def run(ctx):
         probes.append(("powers", decl + pw, True, {"U": name, "op": "powers"}))
         probes.append(("negative-int-pow", decl + "auto r = int_pow<-1>(Quantity<U1, int>{});", False, {"U": name, "op": "int_pow<-1> on int"}))
         # as_raw_number
-        probes.append(("as_raw_number-double", decl + "double r = as_raw_number(Quantity<U1, double>{});", bool(c["dimless1"]), {"U": name, "op": "as_raw_number<double>"}))
+        probes.append(("as_raw_number-double", decl + "auto r = as_raw_number(Quantity<U1, double>{}); static_assert(std::is_same<decltype(r), double>::value || !std::is_arithmetic<decltype(r)>::value, \"\"); (void)r;", bool(c["dimless1"]), {"U": name, "op": "as_raw_number<double>"}))
         intsafe = c["dimless1"] and all(m["d"] == 1 and m["n"] > 0 and m["b"] != 7 for m in c["mag1"])
         # policy-safe into int: magnitude an integer k with 2147*k <= INT_MAX (k <= 1000225); our dimensionless catalogue magnitudes are tiny or fractional
-        probes.append(("as_raw_number-int", decl + "int r = as_raw_number(Quantity<U1, int>{});", bool(intsafe), {"U": name, "op": "as_raw_number<int>"}))
+        probes.append(("as_raw_number-int", decl + "auto r = as_raw_number(Quantity<U1, int>{}); (void)r;", bool(intsafe), {"U": name, "op": "as_raw_number<int>"}))
         probes.append(("scalar-div-int", decl + "auto r = 3 / Quantity<U1, int>{};", bool(c["unitless1"]), {"U": name, "op": "int / integral quantity"}))
         probes.append(("scalar-div-int-unblocked", decl + "auto r = 3 / unblock_int_div(Quantity<U1, int>{});", True, {"U": name, "op": "int / unblock_int_div"}))
         probes.append(("scalar-div-double", decl + "auto r = 3.0 / Quantity<U1, int>{};", True, {"U": name, "op": "double / integral quantity"}))
